@@ -249,7 +249,7 @@ def body_threads(case):
 
 
 def tests(tier):
-    ts = [TestSpec("history", gen_case, body, {"quick": 400, "thorough": 40000}, tape=3072)]
+    ts = [TestSpec("history", gen_case, body, {"quick": 400, "thorough": 40000}, tape=3072, fuzz={"thorough": 15000})]
     if tier == "thorough":
         ts.append(TestSpec("threads", gen_case, body_threads, {"quick": 50, "thorough": 3000}, tape=3072))
     return ts
